@@ -894,8 +894,8 @@ def run(ctx):
         model_run(ctx, "MC_C07", "MC_quick.cfg", "exact Circuit N=2 depth 3", EX, w)
         model_run(ctx, "MC_C07", "MC_quick_perm.cfg", "CircuitPermMPS N=3 depth 3", PM, w)
     else:
-        model_run(ctx, "MC_C07", "MC_thorough.cfg", "exact Circuit N=2 depth 4", EX + ("reject",), w)
-        model_run(ctx, "MC_C07", "MC_thorough3.cfg", "exact Circuit N=3 depth 3", EX, w)
+        model_run(ctx, "MC_C07", "MC_thorough.cfg", "exact Circuit N=2 depth 4", EX, w)
+        model_run(ctx, "MC_C07", "MC_thorough3.cfg", "exact Circuit N=3 depth 3", EX + ("reject",), w)
         model_run(ctx, "MC_C07", "MC_thorough_perm.cfg", "CircuitPermMPS swap+split N=3 depth 4", PM, w)
         model_run(ctx, "MC_C07", "MC_thorough_permauto.cfg", "CircuitPermMPS auto-mps N=3 depth 4", PM, w)
     must_fail(ctx, "MC_dev_permswap.cfg", "RejectClean", "KF-C07-1: SWAP on CircuitPermMPS raises after the permutation was updated")
